@@ -1,29 +1,691 @@
 import PhyVerif.Model.C05
 import PhyVerif.Spec.C05
+import PhyVerif.Lemmas.C09
+import PhyVerif.Lemmas.C11
+import Mathlib.Tactic.Linarith
+import Mathlib.Algebra.Order.Field.Rat
 /-! Helper lemmas and full proofs for C05. Statements: `Props/C05.lean`. -/
 namespace PhyVerif.C05.Lemmas
 open PhyVerif PhyVerif.C09 PhyVerif.C05
+
+/-! ### stable insertion sort on (rational key, index) pairs -/
+
+/-- the comparison used by `argsortRat` -/
+abbrev leK : Rat × Nat → Rat × Nat → Bool := fun a b => decide (a.1 ≤ b.1)
+
+/-- lexicographic (key, index) order -/
+def KLt (a b : Rat × Nat) : Prop := a.1 < b.1 ∨ (a.1 = b.1 ∧ a.2 < b.2)
+
+theorem KLt.le {a b : Rat × Nat} (h : KLt a b) : a.1 ≤ b.1 := by
+  rcases h with h | h
+  · exact le_of_lt h
+  · exact le_of_eq h.1
+
+theorem insertBy_stable (x : Rat × Nat) (L : List (Rat × Nat)) (hL : L.Pairwise KLt)
+    (hx : ∀ y ∈ L, x.2 < y.2) : (Np.insertBy leK x L).Pairwise KLt := by
+  induction L with
+  | nil => simp [Np.insertBy]
+  | cons y ys ih =>
+    rw [List.pairwise_cons] at hL
+    unfold Np.insertBy
+    split
+    · rename_i hxy
+      have hxy' : x.1 ≤ y.1 := by simpa using hxy
+      refine List.pairwise_cons.2 ⟨?_, List.pairwise_cons.2 hL⟩
+      intro z hz
+      have hz2 : x.2 < z.2 := hx z hz
+      have hz1 : x.1 ≤ z.1 := by
+        rcases List.mem_cons.1 hz with rfl | hz'
+        · exact hxy'
+        · exact le_trans hxy' (hL.1 z hz').le
+      rcases lt_or_eq_of_le hz1 with h | h
+      · exact Or.inl h
+      · exact Or.inr ⟨h, hz2⟩
+    · rename_i hxy
+      have hxy' : ¬ x.1 ≤ y.1 := by simpa using hxy
+      refine List.pairwise_cons.2 ⟨?_, ih hL.2 (fun z hz => hx z (List.mem_cons_of_mem _ hz))⟩
+      intro z hz
+      rcases List.mem_cons.1 ((C11.Lemmas.insertBy_perm leK x ys).mem_iff.1 hz) with rfl | hz'
+      · exact Or.inl (lt_of_not_ge hxy')
+      · exact hL.1 z hz'
+
+theorem isort_stable (l : List (Rat × Nat)) (hl : l.Pairwise (fun a b => a.2 < b.2)) :
+    (Np.isort leK l).Pairwise KLt := by
+  induction l with
+  | nil => simp [Np.isort]
+  | cons x xs ih =>
+    rw [List.pairwise_cons] at hl
+    unfold Np.isort
+    apply insertBy_stable x _ (ih hl.2)
+    intro y hy
+    exact hl.1 y ((C11.Lemmas.isort_perm leK xs).mem_iff.1 hy)
+
+/-- plain insertion sort of rationals is sorted -/
+abbrev leR : Rat → Rat → Bool := fun a b => decide (a ≤ b)
+
+theorem insertBy_sorted (x : Rat) (L : List Rat) (hL : L.Pairwise (· ≤ ·)) :
+    (Np.insertBy leR x L).Pairwise (· ≤ ·) := by
+  induction L with
+  | nil => simp [Np.insertBy]
+  | cons y ys ih =>
+    rw [List.pairwise_cons] at hL
+    unfold Np.insertBy
+    split
+    · rename_i hxy
+      have hxy' : x ≤ y := by simpa using hxy
+      refine List.pairwise_cons.2 ⟨?_, List.pairwise_cons.2 hL⟩
+      intro z hz
+      rcases List.mem_cons.1 hz with rfl | hz'
+      · exact hxy'
+      · exact le_trans hxy' (hL.1 z hz')
+    · rename_i hxy
+      have hxy' : ¬ x ≤ y := by simpa using hxy
+      refine List.pairwise_cons.2 ⟨?_, ih hL.2⟩
+      intro z hz
+      rcases List.mem_cons.1 ((C11.Lemmas.insertBy_perm leR x ys).mem_iff.1 hz) with rfl | hz'
+      · exact le_of_lt (lt_of_not_ge hxy')
+      · exact hL.1 z hz'
+
+theorem isort_sorted (l : List Rat) : (Np.isort leR l).Pairwise (· ≤ ·) := by
+  induction l with
+  | nil => simp [Np.isort]
+  | cons x xs ih =>
+    unfold Np.isort
+    exact insertBy_sorted x _ ih
+
+/-- the sorted (key, index) pairs behind `argsortRat` -/
+def sp (keys : List Rat) : List (Rat × Nat) := Np.isort leK keys.zipIdx
+
+theorem argsortRat_eq (keys : List Rat) : argsortRat keys = (sp keys).map (·.2) := rfl
+
+theorem sp_perm (keys : List Rat) : (sp keys).Perm keys.zipIdx := C11.Lemmas.isort_perm _ _
+
+theorem sp_pairwise (keys : List Rat) : (sp keys).Pairwise KLt :=
+  isort_stable _ (C11.Lemmas.zipIdx_pairwise_snd keys 0)
+
+theorem sp_mem (keys : List Rat) (p : Rat × Nat) (hp : p ∈ sp keys) : keys[p.2]? = some p.1 :=
+  List.mem_zipIdx_iff_getElem?.1 ((sp_perm keys).mem_iff.1 hp)
+
+theorem sp_length (keys : List Rat) : (sp keys).length = keys.length := by
+  rw [(sp_perm keys).length_eq, List.length_zipIdx]
+
+theorem argsortRat_perm (keys : List Rat) : (argsortRat keys).Perm (List.range keys.length) := by
+  rw [argsortRat_eq]
+  have h := (sp_perm keys).map (·.2)
+  rw [show (keys.zipIdx.map (·.2)) = List.range keys.length by
+    rw [List.range_eq_range']; exact List.zipIdx_map_snd 0 keys] at h
+  exact h
+
+theorem argsortRat_length (keys : List Rat) : (argsortRat keys).length = keys.length := by
+  rw [(argsortRat_perm keys).length_eq, List.length_range]
+
+theorem argsortRat_keys (keys : List Rat) :
+    (argsortRat keys).map (fun i => keys.getD i 0) = (sp keys).map (·.1) := by
+  rw [argsortRat_eq, List.map_map]
+  apply List.map_congr_left
+  intro p hp
+  simp [List.getD_eq_getElem?_getD, sp_mem keys p hp]
+
+theorem sp_keys_sorted (keys : List Rat) : ((sp keys).map (·.1)).Pairwise (· ≤ ·) :=
+  List.Pairwise.map _ (fun _ _ h => KLt.le h) (sp_pairwise keys)
+
+theorem isort_eq_sp_keys (keys : List Rat) : Np.isort leR keys = (sp keys).map (·.1) := by
+  apply List.Perm.eq_of_pairwise (le := (· ≤ ·)) (fun a b _ _ h1 h2 => le_antisymm h1 h2)
+    (isort_sorted keys) (sp_keys_sorted keys)
+  have h := (sp_perm keys).map (·.1)
+  rw [show keys.zipIdx.map (·.1) = keys from List.zipIdx_map_fst 0 keys] at h
+  exact (C11.Lemmas.isort_perm leR keys).trans h.symm
+
+theorem argsortDesc_perm (v : List Rat) : (argsortDesc v).Perm (List.range v.length) :=
+  (List.reverse_perm _).trans (argsortRat_perm v)
+
+theorem argsortDesc_length (v : List Rat) : (argsortDesc v).length = v.length := by
+  rw [(argsortDesc_perm v).length_eq, List.length_range]
+
+theorem argsortDesc_keys (v : List Rat) :
+    ((argsortDesc v).map (fun i => v.getD i 0)).Pairwise (· ≥ ·) := by
+  unfold argsortDesc
+  rw [List.map_reverse, List.pairwise_reverse, argsortRat_keys]
+  exact sp_keys_sorted v
+
+theorem nonIncreasing_of_pairwise : ∀ (l : List Rat), l.Pairwise (· ≥ ·) → nonIncreasing l = true
+  | [], _ => rfl
+  | [_], _ => rfl
+  | a :: b :: t, h => by
+    rw [List.pairwise_cons] at h
+    unfold nonIncreasing
+    rw [Bool.and_eq_true]
+    exact ⟨by simpa using h.1 b (List.mem_cons_self), nonIncreasing_of_pairwise (b :: t) h.2⟩
+
+/-! ### nearest channels -/
+
+theorem sorted_getD (l : List Rat) (h : l.Pairwise (· ≤ ·)) (i j : Nat) (hij : i ≤ j)
+    (hj : j < l.length) : l.getD i 0 ≤ l.getD j 0 := by
+  have hi : i < l.length := lt_of_le_of_lt hij hj
+  rw [C09.Lemmas.getD_eq_getElem' l i hi, C09.Lemmas.getD_eq_getElem' l j hj]
+  rcases Nat.lt_or_eq_of_le hij with h' | h'
+  · exact List.pairwise_iff_getElem.1 h i j hi hj h'
+  · subst h'; exact le_refl _
+
+theorem isort_getD (ds : List Rat) (j : Nat) (hj : j < ds.length) :
+    (Np.isort leR ds).getD j 0 = ds.getD ((argsortRat ds).getD j 0) 0 := by
+  rw [isort_eq_sp_keys, ← argsortRat_keys]
+  have hj' : j < (argsortRat ds).length := by rw [argsortRat_length]; exact hj
+  simp [List.getD_eq_getElem?_getD, hj']
+
+theorem near_lemma (ds : List Rat) (n c : Nat) (hn : 0 < n) (hnl : n < ds.length)
+    (hc : c < ds.length) :
+    (ds.getD c 0 < (Np.isort leR ds).getD (n - 1) 0 → c ∈ (argsortRat ds).take n) ∧
+    (ds.getD c 0 > (Np.isort leR ds).getD (n - 1) 0 → c ∉ (argsortRat ds).take n) ∧
+    ((Np.isort leR ds).getD (n - 1) 0 < (Np.isort leR ds).getD n 0 →
+      ds.getD c 0 ≤ (Np.isort leR ds).getD (n - 1) 0 → c ∈ (argsortRat ds).take n) := by
+  have hlen : (argsortRat ds).length = ds.length := argsortRat_length ds
+  have hsorted : (Np.isort leR ds).Pairwise (· ≤ ·) := isort_sorted ds
+  have hklen : (Np.isort leR ds).length = ds.length := (C11.Lemmas.isort_perm leR ds).length_eq
+  have hmem : c ∈ argsortRat ds := (argsortRat_perm ds).mem_iff.2 (List.mem_range.2 hc)
+  obtain ⟨j, hj, hjc⟩ := List.mem_iff_getElem.1 hmem
+  have hjd : (Np.isort leR ds).getD j 0 = ds.getD c 0 := by
+    rw [isort_getD ds j (hlen ▸ hj)]
+    simp [List.getD_eq_getElem?_getD, hj, hjc]
+  have hin : j < n → c ∈ (argsortRat ds).take n := by
+    intro hjn
+    exact List.mem_take_iff_getElem.2 ⟨j, by omega, hjc⟩
+  refine ⟨?_, ?_, ?_⟩
+  · intro hd
+    apply hin
+    by_contra hjn
+    have := sorted_getD _ hsorted (n - 1) j (by omega) (by omega)
+    rw [hjd] at this
+    linarith
+  · intro hd hmem'
+    obtain ⟨i, hi, hic⟩ := List.mem_take_iff_getElem.1 hmem'
+    have hid : (Np.isort leR ds).getD i 0 = ds.getD c 0 := by
+      rw [isort_getD ds i (by omega)]
+      have hi' : i < (argsortRat ds).length := by omega
+      simp [List.getD_eq_getElem?_getD, hi', hic]
+    have := sorted_getD _ hsorted i (n - 1) (by omega) (by omega)
+    rw [hid] at this
+    linarith
+  · intro hcut hd
+    apply hin
+    by_contra hjn
+    have := sorted_getD _ hsorted n j (by omega) (by omega)
+    rw [hjd] at this
+    linarith
+
+theorem nearInfo_spec (g : Geometry) (b c : Nat) (hc : c < g.positions.length) :
+    ((nearInfo g b c).1 = true → c ∈ closestChannels g b) ∧
+    ((nearInfo g b c).2 = true → c ∉ closestChannels g b) := by
+  have hdl : ((List.range g.positions.length).map (dist2 g.positions b)).length
+      = g.positions.length := by simp
+  have hmem : c ∈ argsortRat ((List.range g.positions.length).map (dist2 g.positions b)) :=
+    (argsortRat_perm _).mem_iff.2 (List.mem_range.2 (by rw [hdl]; exact hc))
+  unfold nearInfo closestChannels
+  by_cases h0 : g.nClosest = 0
+  · simp [h0, hmem]
+  by_cases hge : g.nClosest ≥ g.positions.length
+  · have htake : (argsortRat ((List.range g.positions.length).map (dist2 g.positions b))).take
+        g.nClosest = argsortRat ((List.range g.positions.length).map (dist2 g.positions b)) :=
+      List.take_of_length_le (by rw [argsortRat_length, hdl]; exact hge)
+    simp [h0, hge, htake, hmem]
+  · obtain ⟨h1, h2, h3⟩ := near_lemma ((List.range g.positions.length).map (dist2 g.positions b))
+      g.nClosest c (Nat.pos_of_ne_zero h0) (by rw [hdl]; omega) (by rw [hdl]; exact hc)
+    simp only [h0, hge, Bool.or_self, Bool.false_eq_true, if_false, decide_false]
+    split
+    · rename_i hcut
+      refine ⟨fun h => h3 hcut (by simpa using h), fun h => h2 (by simpa using h)⟩
+    · refine ⟨fun h => h1 (by simpa using h), fun h => h2 (by simpa using h)⟩
+
+theorem argsort_head_of_min (ds : List Rat) (b : Nat) (hb : b < ds.length)
+    (hb0 : ds.getD b 0 = 0) (hnn : ∀ i, i < ds.length → 0 ≤ ds.getD i 0)
+    (huniq : ∀ i, i < ds.length → ds.getD i 0 = 0 → i = b) :
+    (argsortRat ds)[0]? = some b := by
+  have hmem : b ∈ argsortRat ds := (argsortRat_perm ds).mem_iff.2 (List.mem_range.2 hb)
+  rw [argsortRat_eq] at hmem ⊢
+  obtain ⟨p, hp, hpb⟩ := List.mem_map.1 hmem
+  have hpw := sp_pairwise ds
+  have hspm := sp_mem ds
+  cases hS : sp ds with
+  | nil => rw [hS] at hp; exact absurd hp (List.not_mem_nil)
+  | cons p0 tl =>
+    rw [hS] at hp hpw hspm
+    rw [List.map_cons, List.getElem?_cons_zero]
+    rcases List.mem_cons.1 hp with rfl | hp'
+    · rw [hpb]
+    · exfalso
+      have hk : KLt p0 p := (List.pairwise_cons.1 hpw).1 p hp'
+      have e0 := hspm p0 (List.mem_cons_self)
+      have e1 := hspm p (List.mem_cons_of_mem _ hp')
+      have hl0 : p0.2 < ds.length := by
+        rcases Nat.lt_or_ge p0.2 ds.length with h | h
+        · exact h
+        · rw [List.getElem?_eq_none h] at e0; exact absurd e0 (by simp)
+      have d0 : ds.getD p0.2 0 = p0.1 := by simp [List.getD_eq_getElem?_getD, e0]
+      have d1 : ds.getD b 0 = p.1 := by rw [← hpb]; simp [List.getD_eq_getElem?_getD, e1]
+      have hp1 : p.1 = 0 := by rw [← d1]; exact hb0
+      have hp0 : 0 ≤ p0.1 := by rw [← d0]; exact hnn _ hl0
+      rcases hk with hk | ⟨hk1, hk2⟩
+      · linarith
+      · have := huniq p0.2 hl0 (by rw [d0, hk1, hp1])
+        omega
+
+theorem dist2_self (pos : List (Rat × Rat)) (b : Nat) : dist2 pos b b = 0 := by
+  simp [dist2]
+
+theorem dist2_nonneg (pos : List (Rat × Rat)) (b c : Nat) : 0 ≤ dist2 pos b c := by
+  unfold dist2
+  exact add_nonneg (mul_self_nonneg _) (mul_self_nonneg _)
+
+theorem dist2_eq_zero (pos : List (Rat × Rat)) (b c : Nat) (h : dist2 pos b c = 0) :
+    pos.getD c (0, 0) = pos.getD b (0, 0) := by
+  unfold dist2 at h
+  simp only at h
+  have h1 := mul_self_nonneg ((pos.getD c (0, 0)).1 - (pos.getD b (0, 0)).1)
+  have h2 := mul_self_nonneg ((pos.getD c (0, 0)).2 - (pos.getD b (0, 0)).2)
+  have e1 := mul_self_eq_zero.1 (le_antisymm (by linarith) h1)
+  have e2 := mul_self_eq_zero.1 (le_antisymm (by linarith) h2)
+  exact Prod.ext (sub_eq_zero.1 e1) (sub_eq_zero.1 e2)
+
+theorem best_mem_closest (g : Geometry) (b : Nat) (hb : b < g.positions.length)
+    (hnd : g.positions.Nodup) : b ∈ closestChannels g b := by
+  have hdl : ((List.range g.positions.length).map (dist2 g.positions b)).length
+      = g.positions.length := by simp
+  have hget : ∀ i, i < g.positions.length →
+      ((List.range g.positions.length).map (dist2 g.positions b)).getD i 0
+        = dist2 g.positions b i := by
+    intro i hi
+    simp [List.getD_eq_getElem?_getD, hi]
+  have hmem : b ∈ argsortRat ((List.range g.positions.length).map (dist2 g.positions b)) :=
+    (argsortRat_perm _).mem_iff.2 (List.mem_range.2 (by rw [hdl]; exact hb))
+  unfold closestChannels
+  by_cases h0 : g.nClosest = 0
+  · simp [h0, hmem]
+  · simp only [h0, if_false]
+    have hhead := argsort_head_of_min ((List.range g.positions.length).map (dist2 g.positions b)) b
+      (by rw [hdl]; exact hb) (by rw [hget b hb]; exact dist2_self _ _)
+      (by intro i hi; rw [hdl] at hi; rw [hget i hi]; exact dist2_nonneg _ _ _)
+      (by
+        intro i hi hz
+        rw [hdl] at hi
+        rw [hget i hi] at hz
+        exact (List.getD_inj hi hb hnd).1 (dist2_eq_zero _ _ _ hz))
+    obtain ⟨h, he⟩ := List.getElem?_eq_some_iff.1 hhead
+    exact List.mem_take_iff_getElem.2 ⟨0, by omega, he⟩
+
+/-! ### small list facts -/
+
+theorem range_map_getD {α : Type} (l : List α) (d : α) :
+    (List.range l.length).map (fun k => l.getD k d) = l := by
+  apply List.ext_getElem
+  · simp
+  · intro i h1 h2
+    simp [List.getD_eq_getElem?_getD, h2]
+
+theorem reorder_perm {α : Type} (l : List α) (d : α) (order : List Nat)
+    (h : order.Perm (List.range l.length)) : (order.map fun k => l.getD k d).Perm l := by
+  have := h.map (fun k => l.getD k d)
+  rwa [range_map_getD] at this
+
+theorem eraseDups_of_nodup : ∀ (l : List Nat), l.Nodup → l.eraseDups = l
+  | [], _ => rfl
+  | a :: as, h => by
+    rw [List.nodup_cons] at h
+    rw [List.eraseDups_cons]
+    have hf : as.filter (fun b => !b == a) = as := by
+      apply List.filter_eq_self.2
+      intro b hb
+      have : b ≠ a := fun e => h.1 (e ▸ hb)
+      simpa using this
+    rw [hf, eraseDups_of_nodup as h.2]
+
+theorem mem_inter (n : Nat) (a b : List Nat) (c : Nat) :
+    c ∈ inter n a b ↔ c < n ∧ c ∈ a ∧ c ∈ b := by
+  simp [inter, List.mem_filter]
+
+theorem inter_nodup (n : Nat) (a b : List Nat) : (inter n a b).Nodup :=
+  List.Nodup.sublist List.filter_sublist List.nodup_range
+
+theorem argmax_getD (l : List Rat) (h : l ≠ []) :
+    argmaxFirst l < l.length ∧ l.getD (argmaxFirst l) 0 = listMax l := by
+  have hm := (C09.Lemmas.listMax_spec l h).1
+  have hlt : argmaxFirst l < l.length := List.idxOf_lt_length_iff.mpr hm
+  refine ⟨hlt, ?_⟩
+  rw [C09.Lemmas.getD_eq_getElem' l _ hlt]; exact List.getElem_idxOf hlt
+
+theorem getD_le_listMax (l : List Rat) (i : Nat) (hi : i < l.length) : l.getD i 0 ≤ listMax l := by
+  rw [C09.Lemmas.getD_eq_getElem' l i hi]
+  exact (C09.Lemmas.listMax_spec l (by intro e; rw [e] at hi; exact absurd hi (by simp))).2 _
+    (List.getElem_mem hi)
+
+/-- the head of a non-increasing reordering attains the maximum -/
+theorem head_attains (f : Nat → Rat) (c0 : Nat) (tl : List Nat) (m : Rat) (b : Nat)
+    (hpw : ((c0 :: tl).map f).Pairwise (· ≥ ·)) (hb : b ∈ c0 :: tl) (hfb : f b = m)
+    (hle : f c0 ≤ m) : f c0 = m := by
+  apply le_antisymm hle
+  rw [List.map_cons, List.pairwise_cons] at hpw
+  rcases List.mem_cons.1 hb with rfl | hb'
+  · exact le_of_eq hfb.symm
+  · rw [← hfb]; exact hpw.1 _ (List.mem_map_of_mem hb')
+
+/-! ### dense records -/
+
+theorem chAmps_length (T : Mat) : (chAmps T).length = ncols T := by simp [chAmps]
+
+theorem chAmps_getD (T : Mat) (c : Nat) (hc : c < ncols T) :
+    (chAmps T).getD c 0 = ptp (col T c) := by
+  simp [chAmps, List.getD_eq_getElem?_getD, hc]
+
+/-- the channel list before reordering -/
+def ids0 (g : Geometry) (T : Mat) (thr : Rat) : List Nat :=
+  let nc := ncols T
+  let amp := chAmps T
+  let best := argmaxFirst amp
+  let mx := amp.getD best 0
+  let peak := (List.range nc).filter fun c => decide (amp.getD c 0 ≥ thr * mx)
+  let close := closestChannels g best
+  let close := match g.shanks with
+    | some sh => inter nc close ((List.range nc).filter fun c => sh.getD c 0 == sh.getD best 0)
+    | none => close
+  inter nc peak close
+
+theorem findBest_eq (g : Geometry) (T : Mat) (thr : Rat) :
+    findBestChannels g T thr =
+      (let amp := chAmps T
+       let order := argsortDesc ((ids0 g T thr).map fun c => amp.getD c 0)
+       let ids := order.map fun k => (ids0 g T thr).getD k 0
+       (ids, ids.map fun c => amp.getD c 0, argmaxFirst amp)) := rfl
+
+theorem findBest_perm (g : Geometry) (T : Mat) (thr : Rat) :
+    (findBestChannels g T thr).1.Perm (ids0 g T thr) := by
+  rw [findBest_eq]
+  apply reorder_perm
+  have := argsortDesc_perm ((ids0 g T thr).map fun c => (chAmps T).getD c 0)
+  rwa [List.length_map] at this
+
+theorem findBest_amp (g : Geometry) (T : Mat) (thr : Rat) :
+    (findBestChannels g T thr).2.1
+      = (findBestChannels g T thr).1.map fun c => (chAmps T).getD c 0 := rfl
+
+theorem findBest_best (g : Geometry) (T : Mat) (thr : Rat) :
+    (findBestChannels g T thr).2.2 = argmaxFirst (chAmps T) := rfl
+
+theorem findBest_sorted (g : Geometry) (T : Mat) (thr : Rat) :
+    (findBestChannels g T thr).2.1.Pairwise (· ≥ ·) := by
+  have h := argsortDesc_keys ((ids0 g T thr).map fun c => (chAmps T).getD c 0)
+  have hp := argsortDesc_perm ((ids0 g T thr).map fun c => (chAmps T).getD c 0)
+  rw [findBest_eq]
+  simp only [List.map_map]
+  rw [List.map_congr_left (g := (fun i => ((ids0 g T thr).map fun c => (chAmps T).getD c 0).getD i 0))]
+  · exact h
+  · intro k hk
+    have hk' : k < (ids0 g T thr).length := by
+      have := List.mem_range.1 (hp.mem_iff.1 hk)
+      rwa [List.length_map] at this
+    simp [List.getD_eq_getElem?_getD, hk']
+
+theorem mem_ids0 (g : Geometry) (T : Mat) (thr : Rat) (c : Nat) :
+    c ∈ ids0 g T thr ↔ c < ncols T ∧
+      (chAmps T).getD c 0 ≥ thr * (chAmps T).getD (argmaxFirst (chAmps T)) 0 ∧
+      (match g.shanks with
+        | some sh => sh.getD c 0 == sh.getD (argmaxFirst (chAmps T)) 0
+        | none => true) = true ∧
+      c ∈ closestChannels g (argmaxFirst (chAmps T)) := by
+  unfold ids0
+  cases g.shanks with
+  | none => simp only [mem_inter, List.mem_filter, List.mem_range, decide_eq_true_eq]; tauto
+  | some sh => simp only [mem_inter, List.mem_filter, List.mem_range, decide_eq_true_eq]; tauto
+
+theorem denseOK_of_facts (g : Geometry) (T : Mat) (thr : Rat) (hwf : DenseWF g T)
+    (_h0 : 0 ≤ thr) (h1 : thr ≤ 1) (ids : List Nat) (amp' : List Rat) (best : Nat)
+    (hbest : best = argmaxFirst (chAmps T))
+    (hamp : amp' = ids.map fun c => (chAmps T).getD c 0)
+    (hnd : ids.Nodup) (hpw : amp'.Pairwise (· ≥ ·))
+    (hmem : ∀ c, c ∈ ids ↔ c < ncols T ∧
+      (chAmps T).getD c 0 ≥ thr * (chAmps T).getD best 0 ∧
+      (match g.shanks with
+        | some sh => sh.getD c 0 == sh.getD best 0
+        | none => true) = true ∧
+      c ∈ closestChannels g best) :
+    denseOK g T thr ⟨T.map fun row => ids.map fun c => row.getD c 0, ids, amp', best⟩ = true := by
+  obtain ⟨_, hnc, _, hpos, _, hposnd⟩ := hwf
+  have hlen := chAmps_length T
+  have hne : chAmps T ≠ [] := by
+    intro e; rw [e] at hlen; simp at hlen; omega
+  obtain ⟨hblt, hbmx⟩ := argmax_getD (chAmps T) hne
+  rw [← hbest] at hblt hbmx
+  rw [hlen] at hblt
+  have hmx0 : 0 ≤ listMax (chAmps T) := C09.Lemmas.listMax_chAmps_nonneg T
+  have hle : ∀ c, c < ncols T → (chAmps T).getD c 0 ≤ listMax (chAmps T) :=
+    fun c hc => getD_le_listMax _ c (by rw [hlen]; exact hc)
+  have hbmem : best ∈ ids := by
+    rw [hmem]
+    refine ⟨hblt, ?_, ?_, best_mem_closest g best (by rw [hpos]; exact hblt) hposnd⟩
+    · rw [hbmx]
+      have := mul_le_mul_of_nonneg_right h1 hmx0
+      linarith
+    · cases g.shanks <;> simp
+  unfold denseOK
+  simp only [Bool.and_eq_true]
+  refine ⟨⟨⟨⟨⟨⟨⟨?_, ?_⟩, ?_⟩, ?_⟩, ?_⟩, ?_⟩, ?_⟩, ?_⟩
+  · -- alignment
+    unfold alignedOK
+    simp only [Bool.and_eq_true, beq_iff_eq]
+    refine ⟨⟨trivial, ?_⟩, ?_⟩
+    · show amp' = _
+      rw [hamp]
+      apply List.map_congr_left
+      intro c hc
+      exact chAmps_getD T c ((hmem c).1 hc).1
+    · show amp'.length = ids.length
+      rw [hamp, List.length_map]
+  · show (ids.eraseDups == ids) = true
+    rw [eraseDups_of_nodup _ hnd]; exact beq_self_eq_true _
+  · show ids.all (· < ncols T) = true
+    rw [List.all_eq_true]
+    intro c hc
+    simpa using ((hmem c).1 hc).1
+  · exact nonIncreasing_of_pairwise _ hpw
+  · simpa using hblt
+  · show ((chAmps T).getD best 0 == listMax (chAmps T)) = true
+    rw [hbmx]; exact beq_self_eq_true _
+  · cases ids with
+    | nil => exact absurd hbmem (List.not_mem_nil)
+    | cons c0 tl =>
+      simp only [beq_iff_eq]
+      apply head_attains (fun c => (chAmps T).getD c 0) c0 tl _ best (hamp ▸ hpw) hbmem hbmx
+      exact hle c0 ((hmem c0).1 (List.mem_cons_self)).1
+  · rw [List.all_eq_true]
+    intro c hc
+    have hc' : c < ncols T := List.mem_range.1 hc
+    obtain ⟨hN1, hN2⟩ := nearInfo_spec g best c (by rw [hpos]; exact hc')
+    have hin : (ids.contains c = true) ↔
+        ((decide ((chAmps T).getD c 0 ≥ thr * listMax (chAmps T)) &&
+          (match g.shanks with
+            | some sh => sh.getD c 0 == sh.getD best 0
+            | none => true)) = true ∧ c ∈ closestChannels g best) := by
+      rw [List.contains_iff_mem, hmem c, hbmx, Bool.and_eq_true, decide_eq_true_eq]
+      constructor
+      · rintro ⟨_, a, b, d⟩; exact ⟨⟨a, b⟩, d⟩
+      · rintro ⟨⟨a, b⟩, d⟩; exact ⟨hc', a, b, d⟩
+    show (match nearInfo g best c with
+      | (must, mustNot) =>
+        (!(must && (decide ((chAmps T).getD c 0 ≥ thr * listMax (chAmps T)) &&
+          (match g.shanks with
+            | some sh => sh.getD c 0 == sh.getD best 0
+            | none => true))) || ids.contains c) &&
+        (!(mustNot || !(decide ((chAmps T).getD c 0 ≥ thr * listMax (chAmps T)) &&
+          (match g.shanks with
+            | some sh => sh.getD c 0 == sh.getD best 0
+            | none => true))) || !ids.contains c)) = true
+    generalize (decide ((chAmps T).getD c 0 ≥ thr * listMax (chAmps T)) &&
+          (match g.shanks with
+            | some sh => sh.getD c 0 == sh.getD best 0
+            | none => true)) = cond at hin ⊢
+    generalize nearInfo g best c = ni at hN1 hN2 ⊢
+    obtain ⟨must, mustNot⟩ := ni
+    simp only at hN1 hN2 ⊢
+    by_cases hcl : c ∈ closestChannels g best
+    · have hmn : mustNot = false := by
+        cases mustNot
+        · rfl
+        · exact absurd hcl (hN2 rfl)
+      subst hmn
+      cases hcc : cond <;> cases hi : ids.contains c <;> cases must <;> simp_all
+    · have hm : must = false := by
+        cases must
+        · rfl
+        · exact absurd (hN1 rfl) hcl
+      subst hm
+      cases hcc : cond <;> cases hi : ids.contains c <;> cases mustNot <;> simp_all
 
 theorem dense_record_ok (g : Geometry) (T : Mat) (thr : Rat) (hwf : DenseWF g T)
     (h0 : 0 ≤ thr) (h1 : thr ≤ 1) :
     let (ids, amp, best) := findBestChannels g T thr
     denseOK g T thr ⟨T.map fun row => ids.map fun c => row.getD c 0, ids, amp, best⟩ = true := by
-  sorry
+  show denseOK g T thr ⟨T.map fun row => (findBestChannels g T thr).1.map fun c => row.getD c 0,
+    (findBestChannels g T thr).1, (findBestChannels g T thr).2.1,
+    (findBestChannels g T thr).2.2⟩ = true
+  apply denseOK_of_facts g T thr hwf h0 h1 _ _ _ (findBest_best g T thr) (findBest_amp g T thr)
+    ((findBest_perm g T thr).nodup_iff.2 (inter_nodup _ _ _)) (findBest_sorted g T thr)
+  intro c
+  rw [(findBest_perm g T thr).mem_iff, findBest_best]
+  exact mem_ids0 g T thr c
 
 theorem getTemplateDense_auto (g : Geometry) (wmi Tw : Mat) (thr : Rat) (unwh : Bool) :
     getTemplateDense g wmi Tw none thr unwh =
       (let T := if unwh then unwhiten wmi Tw none else Tw
        let r := findBestChannels g T thr
        ⟨T.map fun row => r.1.map fun c => row.getD c 0, r.1, r.2.1, r.2.2⟩) := by
-  sorry
+  rfl
 
+theorem col_sub (T : Mat) (l : List Nat) (j : Nat) (hj : j < l.length) :
+    col (T.map fun row => l.map fun c => row.getD c 0) j = col T (l.getD j 0) := by
+  unfold col
+  rw [List.map_map]
+  apply List.map_congr_left
+  intro row _
+  simp [List.getD_eq_getElem?_getD, hj]
+
+set_option linter.unusedVariables false in -- unused hypotheses kept: public statement
 theorem dense_explicit_ok (g : Geometry) (wmi Tw : Mat) (l : List Nat) (thr : Rat) (unwh : Bool)
     (hwf : DenseWF g (if unwh then unwhiten wmi Tw none else Tw))
     (hl : ∀ c ∈ l, c < ncols (if unwh then unwhiten wmi Tw none else Tw)) :
     denseExplicitOK (if unwh then unwhiten wmi Tw none else Tw) l
       (getTemplateDense g wmi Tw (some l) thr unwh) = true := by
-  sorry
+  have hrec : getTemplateDense g wmi Tw (some l) thr unwh =
+      (let T := if unwh then unwhiten wmi Tw none else Tw
+       ⟨T.map fun row => l.map fun c => row.getD c 0, l,
+        getTemplateDense.chAmps' (T.map fun row => l.map fun c => row.getD c 0) l.length,
+        argmaxFirst (chAmps T)⟩) := rfl
+  rw [hrec]
+  generalize (if unwh then unwhiten wmi Tw none else Tw) = T at hwf hl
+  show denseExplicitOK T l ⟨T.map fun row => l.map fun c => row.getD c 0, l,
+    getTemplateDense.chAmps' (T.map fun row => l.map fun c => row.getD c 0) l.length,
+    argmaxFirst (chAmps T)⟩ = true
+  obtain ⟨_, hnc, _⟩ := hwf
+  have hlen := chAmps_length T
+  have hne : chAmps T ≠ [] := by
+    intro e; rw [e] at hlen; simp at hlen; omega
+  unfold denseExplicitOK alignedOK
+  simp only [Bool.and_eq_true, beq_iff_eq]
+  refine ⟨⟨⟨⟨trivial, ?_⟩, ?_⟩, trivial⟩, (argmax_getD _ hne).2⟩
+  · show getTemplateDense.chAmps' _ l.length = l.map fun c => ptp (col T c)
+    unfold getTemplateDense.chAmps'
+    conv => rhs; rw [← range_map_getD l 0, List.map_map]
+    apply List.map_congr_left
+    intro j hj
+    have hj' := List.mem_range.1 hj
+    simp only [Function.comp]
+    rw [col_sub T l j hj']
+  · show (getTemplateDense.chAmps' _ l.length).length = l.length
+    simp [getTemplateDense.chAmps']
 
+/-! ### sparse records -/
+
+theorem idxOf_getD (ch : List Nat) (hnd : ch.Nodup) (i : Nat) (hi : i < ch.length) :
+    ch.idxOf (ch.getD i 0) = i := by
+  have : ch.getD i 0 = ch[i] := by simp [List.getD_eq_getElem?_getD, hi]
+  rw [this]
+  exact hnd.idxOf_getElem i hi
+
+theorem sparseOK_generic (ch : List Nat) (Tk : Mat) (hnd : ch.Nodup) :
+    let amp := (List.range ch.length).map fun j => ptp (col Tk j)
+    let order := argsortDesc amp
+    sparseOK ch Tk ⟨Tk.map fun row => order.map fun j => row.getD j 0,
+      order.map fun j => ch.getD j 0, order.map fun j => amp.getD j 0,
+      ch.getD (argmaxFirst amp) 0⟩ = true := by
+  intro amp order
+  have hal : amp.length = ch.length := by simp [amp]
+  have hperm : order.Perm (List.range ch.length) := hal ▸ argsortDesc_perm amp
+  have holen : order.length = ch.length := by rw [hperm.length_eq, List.length_range]
+  have hlt : ∀ j ∈ order, j < ch.length := fun j hj => List.mem_range.1 (hperm.mem_iff.1 hj)
+  have hchan : (order.map fun j => ch.getD j 0).Perm ch := reorder_perm ch 0 order hperm
+  have hsorted : (order.map fun j => amp.getD j 0).Pairwise (· ≥ ·) := argsortDesc_keys amp
+  unfold sparseOK
+  simp only [Bool.and_eq_true]
+  refine ⟨⟨⟨⟨⟨⟨⟨⟨?_, ?_⟩, ?_⟩, ?_⟩, ?_⟩, ?_⟩, ?_⟩, ?_⟩, ?_⟩
+  · rw [Bool.or_eq_true]; left
+    show ((order.map fun j => ch.getD j 0).eraseDups == (order.map fun j => ch.getD j 0)) = true
+    rw [eraseDups_of_nodup _ (hchan.nodup_iff.2 hnd)]; exact beq_self_eq_true _
+  · exact nonIncreasing_of_pairwise _ hsorted
+  · show ((order.map fun j => amp.getD j 0).length == (order.map fun j => ch.getD j 0).length) = true
+    simp
+  · show ((order.map fun j => ch.getD j 0).length == ch.length) = true
+    simp [holen]
+  · show (order.map fun j => ch.getD j 0).all (ch.contains ·) = true
+    rw [List.all_eq_true]
+    intro c hc
+    simpa using hchan.mem_iff.1 hc
+  · show ch.all ((order.map fun j => ch.getD j 0).contains ·) = true
+    rw [List.all_eq_true]
+    intro c hc
+    rw [List.contains_iff_mem]
+    exact hchan.mem_iff.2 hc
+  · show (List.range (order.map fun j => ch.getD j 0).length).all _ = true
+    rw [List.all_eq_true]
+    intro j hj
+    have hj' : j < order.length := by simpa using hj
+    have hoj : order[j] < ch.length := hlt _ (List.getElem_mem hj')
+    have e1 : (order.map fun j => ch.getD j 0).getD j 0 = ch.getD order[j] 0 := by
+      simp [List.getD_eq_getElem?_getD, hj']
+    have e2 : (order.map fun j => amp.getD j 0).getD j 0 = amp.getD order[j] 0 := by
+      simp [List.getD_eq_getElem?_getD, hj']
+    simp only [Bool.and_eq_true, beq_iff_eq]
+    rw [e1, e2, idxOf_getD ch hnd _ hoj]
+    refine ⟨?_, rfl⟩
+    unfold col
+    rw [List.map_map]
+    apply List.map_congr_left
+    intro row _
+    simp [List.getD_eq_getElem?_getD, hj']
+  · show (match (order.map fun j => ch.getD j 0) with
+      | [] => true
+      | c0 :: _ => amp.getD (ch.idxOf c0) 0 == listMax amp) = true
+    cases ho : order with
+    | nil => rfl
+    | cons o0 tl =>
+      rw [ho] at hsorted hlt hperm
+      simp only [List.map_cons, beq_iff_eq]
+      have ho0 : o0 < ch.length := hlt o0 (List.mem_cons_self)
+      rw [idxOf_getD ch hnd _ ho0]
+      have hne : amp ≠ [] := by
+        intro e; rw [e] at hal; simp at hal; omega
+      obtain ⟨hblt, hbmx⟩ := argmax_getD amp hne
+      apply head_attains (fun j => amp.getD j 0) o0 tl _ (argmaxFirst amp) hsorted
+        (hperm.mem_iff.2 (List.mem_range.2 (hal ▸ hblt))) hbmx
+      exact getD_le_listMax amp o0 (by rw [hal]; exact ho0)
+  · rw [Bool.or_eq_true]
+    by_cases hch : ch = []
+    · left; rw [hch]; rfl
+    · right
+      have hne : amp ≠ [] := by
+        intro e; rw [e] at hal
+        exact hch (List.length_eq_zero_iff.1 hal.symm)
+      obtain ⟨hblt, hbmx⟩ := argmax_getD amp hne
+      show (amp.getD (ch.idxOf (ch.getD (argmaxFirst amp) 0)) 0 == listMax amp) = true
+      rw [idxOf_getD ch hnd _ (hal ▸ hblt), hbmx]; exact beq_self_eq_true _
+
+set_option linter.unusedVariables false in -- unused hypotheses kept: public statement
 theorem sparse_record_ok (wmi Tw : Mat) (cols : List Int) (unwh : Bool)
     (hrect : ∀ row ∈ Tw, row.length = cols.length) (hT : Tw ≠ [])
     (hcols : ∀ c ∈ cols, c = -1 ∨ 0 ≤ c) (hdist : (cols.filter (· ≠ -1)).Nodup) :
@@ -35,6 +697,49 @@ theorem sparse_record_ok (wmi Tw : Mat) (cols : List Int) (unwh : Bool)
     let sub : Mat := Tw.map fun row => keep.map fun j => row.getD j 0
     sparseOK ch (if unwh then unwhiten wmi sub (some ch) else sub)
       (getTemplateSparse wmi Tw cols unwh) = true := by
-  sorry
+  intro k tmax keep ch sub
+  have hrec : getTemplateSparse wmi Tw cols unwh =
+      (let Tk := if unwh then unwhiten wmi sub (some ch) else sub
+       let amp := (List.range keep.length).map fun j => ptp (col Tk j)
+       let order := argsortDesc amp
+       ⟨Tk.map fun row => order.map fun j => row.getD j 0, order.map fun j => ch.getD j 0,
+        order.map fun j => amp.getD j 0, ch.getD (argmaxFirst amp) 0⟩) := rfl
+  rw [hrec]
+  have hchlen : keep.length = ch.length := by simp [ch]
+  rw [hchlen]
+  have hnd : ch.Nodup := by
+    have hsub : (keep.map fun j => cols.getD j 0).Sublist (cols.filter (· ≠ -1)) := by
+      have hc : cols.filter (· ≠ -1)
+          = ((List.range k).filter fun j => cols.getD j 0 != -1).map fun j => cols.getD j 0 := by
+        conv => lhs; rw [← range_map_getD cols 0, List.filter_map]
+        congr 1
+        apply List.filter_congr
+        intro j _
+        show decide (cols.getD j 0 ≠ -1) = (cols.getD j 0 != -1)
+        generalize cols.getD j 0 = x
+        by_cases h : x = -1 <;> simp [h]
+      rw [hc]
+      apply List.Sublist.map
+      show ((List.range k).filter fun j =>
+        decide (tmax.getD j 0 > listMax tmax * (1 / 1000000)) && cols.getD j 0 != -1).Sublist _
+      rw [← List.filter_filter]
+      exact List.filter_sublist
+    have hnd1 : (keep.map fun j => cols.getD j 0).Nodup := List.Nodup.sublist hsub hdist
+    have hch : ch = (keep.map fun j => cols.getD j 0).map Int.toNat := by
+      simp [ch, List.map_map]
+    rw [hch]
+    have hnn : ∀ x ∈ keep.map fun j => cols.getD j 0, 0 ≤ x := by
+      intro x hx
+      have hx' := hsub.subset hx
+      rw [List.mem_filter] at hx'
+      rcases hcols x hx'.1 with h | h
+      · exact absurd h (by simpa using hx'.2)
+      · exact h
+    refine List.pairwise_map.2 (List.Pairwise.imp_of_mem ?_ hnd1)
+    intro x y hx hy hxy
+    have := hnn x hx
+    have := hnn y hy
+    omega
+  exact sparseOK_generic ch _ hnd
 
 end PhyVerif.C05.Lemmas
